@@ -45,6 +45,13 @@ pub mod ext {
 
     #[verifier::external_type_specification]
     pub struct ExErrorKind(std::io::ErrorKind);
+    /// Rule R24: `res.expect(msg)` where the panic is the documented behaviour becomes a call of this stand-in, which --
+    /// unlike vstd's specification of `Result::expect` -- has no precondition: if `res` is `Err` it does not return
+    /// (partial correctness: what follows may assume `Ok`).
+    #[verifier::external_body]
+    pub fn expect_or_diverge<T, E: std::fmt::Debug>(res: Result<T, E>, msg: &str) -> (r: T)
+        ensures res == Ok::<T, E>(r),
+    { res.expect(msg) }
     pub uninterp spec fn io_kind(e: std::io::Error) -> std::io::ErrorKind;
     pub assume_specification [std::io::Error::kind] (e: &std::io::Error) -> (r: std::io::ErrorKind)
         ensures r == io_kind(*e);
